@@ -25,7 +25,7 @@ Print Assumptions C07_wrap_lines_lossless.
 
 (* Width bound, for every width >= 1: every piece handed to the child has at most WIDTH
    bytes, or is a single code point ([width_ok] = length <= w, or the scanner counts
-   exactly one code point).  Proved for the repaired wrap_lines (repo commit b62d6b6);
+   exactly one code point).  Proved for the repaired wrap_lines (repo commit d3504c5);
    the original code violated it, e.g. -w 3 on two 2-byte characters. *)
 Theorem C07_width_bound : forall line o, utf8_valid line = true -> short_line line -> 1 <= w_width o ->
   exists ps ds, wrap_lines line o = WOk ps ds /\
